@@ -62,6 +62,10 @@ func zzLockStore() *zzStore {
 	mk("b", false, zzChoice("lock1", 3))
 	mk("c", true, zzChoice("lock2", 5))
 	st.respLevel = zzBool("resplevel")
+	st.txnSize = 1
+	if zzParam("lock_bigtxn", 0) != 0 && zzBool("bigtxn") {
+		st.txnSize = 100
+	}
 	return st
 }
 
